@@ -77,6 +77,18 @@ pub fn check(hist: &History, cfg: &HybCfg) -> Vec<Complaint> {
                         && hist.writes.iter().any(|w3| {
                             w3.epoch == w2.epoch && w3.invoke > w2.invoke && matches!(w3.kind, WKind::Insert { .. } | WKind::FetchInsert { .. })
                         });
+                    // Attribution (thread granularity): a lookup that overlapped the superseding insert loaded the
+                    // older version from disk; its fetch task put it (back) into memory between the two steps of
+                    // that insert (memory insert, then disk enqueue), after the new value had been evicted again.
+                    let load_during_insert = matches!(w2.kind, WKind::Insert { .. } | WKind::FetchInsert { .. })
+                        && w2.invoke < r2
+                        && hist.lookups.iter().any(|l0| {
+                            l0.key == *key
+                                && !std::ptr::eq(l0, l)
+                                && l0.invoke < r2
+                                && l0.resp.map(|r| r > w2.invoke).unwrap_or(true)
+                                && matches!(&l0.res, LookupRes::Hit { ver: v0, source, .. } if v0 == ver && *source == 2)
+                        });
                     let tier = match source {
                         0 => "origin",
                         1 => "memory",
@@ -109,7 +121,13 @@ pub fn check(hist: &History, cfg: &HybCfg) -> Vec<Complaint> {
                                 continue;
                             }
                             out.push((
-                                if gof_requeue { "R.stale-gof-requeue" } else { "R.stale" },
+                                if gof_requeue {
+                                    "R.stale-gof-requeue"
+                                } else if load_during_insert {
+                                    "R.stale-load-during-insert"
+                                } else {
+                                    "R.stale"
+                                },
                                 format!(
                                     "{}(k{}) returned v{ver} (served by {tier}) although v{} was inserted at t{}..t{} before the lookup started at t{}{}",
                                     l.kind,
@@ -137,11 +155,14 @@ pub fn check(hist: &History, cfg: &HybCfg) -> Vec<Complaint> {
                             // Attribution: was a lookup of the same key in flight while the remove ran, and did
                             // it come back with this very version? Then the removed value was re-populated by
                             // that lookup's disk load (remove does not cancel in-flight loads).
+                            // (Engine V: calls are atomic, so "in flight while the remove ran" = started before and
+                            // answered after it; Engine TH: the lookup overlaps the remove call.)
                             let inflight_load = w2.kind == WKind::Remove
                                 && hist.lookups.iter().any(|l0| {
                                     l0.key == *key
-                                        && l0.invoke < w2.invoke
-                                        && l0.resp.map(|r| r > r2).unwrap_or(true)
+                                        && !std::ptr::eq(l0, l)
+                                        && l0.invoke < r2.max(w2.invoke + 1)
+                                        && l0.resp.map(|r| r > w2.invoke).unwrap_or(true)
                                         && matches!(&l0.res, LookupRes::Hit { ver: v0, source, .. } if v0 == ver && *source == 2)
                                 });
                             // Same attribution for clear(): a lookup of the key overlapped the clear() call and
@@ -155,10 +176,22 @@ pub fn check(hist: &History, cfg: &HybCfg) -> Vec<Complaint> {
                                         && matches!(&l0.res, LookupRes::Hit { ver: v0, .. } if v0 == ver)
                                         && !std::ptr::eq(l0, l)
                                 });
+                            // Attribution (thread granularity, write-on-eviction): the returned version left memory by
+                            // capacity eviction (so the remove did not find it there) and was offered to the disk tier
+                            // only after the remove had begun: the remove ran in the window in which the evicted entry
+                            // was in neither tier, and the entry was written after the tombstone.
+                            let hash = crate::memdrive::VHash { table: std::sync::Arc::new(cfg.hash_table.clone()) }.hash_of(*key);
+                            let eviction_in_transit = w2.kind == WKind::Remove
+                                && !cfg.woi
+                                && hist.leaves.iter().any(|e| e.key == *key && e.ver == *ver && e.reason == 0)
+                                && !hist.leaves.iter().any(|e| e.key == *key && e.ver == *ver && e.reason == 2)
+                                && hist.admissions.iter().any(|(h, t)| *h == hash && *t >= w2.invoke);
                             // A newer insert after the remove would have been reported as stale above.
                             out.push((
                                 if inflight_load {
                                     "R.removed-inflight-load"
+                                } else if eviction_in_transit {
+                                    "R.removed-eviction-in-transit"
                                 } else if lookup_during_clear {
                                     "R.cleared-lookup-during-clear"
                                 } else if clear_reseal {
